@@ -48,7 +48,7 @@ def main():
             if c.returncode not in (0, 1):
                 print("     ", (c.stderr or c.stdout).strip().splitlines()[-3:])
     finally:
-        sh("git -C /repo checkout -- .")
+        sh("git -C /repo checkout -- . && git -C /repo clean -fdq -- src tests benches")
         st = sh("git -C /repo status --porcelain --untracked-files=no")
         if st.stdout.strip():
             print("WARNING: /repo not clean after restore:", st.stdout)
